@@ -13,7 +13,7 @@ import os
 import z3
 
 from pyvc import cx, ob
-from .cxutil import clause
+from .cxutil import clause, canary
 from . import c0910
 
 PROP = 'C10'
@@ -148,10 +148,100 @@ def task_concrete():
     return col.pack()
 
 
+# ------------------------------------------------------------------ magnetic dipole as a square loop
+class Mat(cx.Ext):
+    """(n, 3) array as a list of rows (np.stack of 3-vectors); only what point_to_square_loop needs"""
+
+    def __init__(self, rows):
+        self.rows = [list(r) for r in rows]
+
+    def cx_binop(self, it, op, other, reflected):
+        import ast as _ast
+        if isinstance(other, (cx.Vec, list)) and len(other) == 3 and isinstance(op, (_ast.Add, _ast.Sub)):
+            f = (lambda a, b: a + b) if isinstance(op, _ast.Add) else ((lambda a, b: b - a) if reflected else (lambda a, b: a - b))
+            return Mat([[f(cx.R(x), cx.R(o)) for x, o in zip(r, other)] for r in self.rows])
+        return NotImplemented
+
+
+def task_square_loop():
+    """electrodes.point_to_square_loop(source, area): five points, closed, a planar square of the given area centred on the dipole whose
+    right-handed normal (p1-p0) x (p2-p1) is area times the dipole direction rotation(azimuth, elevation) -- for every azimuth and elevation
+    (trigonometric functions as symbols with cos^2 + sin^2 = 1; quarter-turn shifts reduced exactly)."""
+    col = ob.Collector(PROP, 'electrodes.point_to_square_loop')
+    col.default_replay = replay
+    col.function('electrodes.point_to_square_loop')
+    AZ, EL, AREA, H = z3.Reals('azimuth elevation area half_diag')
+    CA, SA, CE, SE = z3.Reals('cos_az sin_az cos_el sin_el')
+    X0 = z3.Reals('x0 y0 z0')
+    trig = {'azimuth': (CA, SA), 'elevation': (CE, SE)}
+
+    def cs(expr):
+        """(cos, sin) of base + k*90 degrees"""
+        expr = cx.R(expr)
+        for base, (c, s_) in ((AZ, trig['azimuth']), (EL, trig['elevation']), (z3.RealVal(0), (z3.RealVal(1), z3.RealVal(0)))):
+            d = z3.simplify(expr - base)
+            if z3.is_rational_value(d):
+                q = d.as_fraction() / 90
+                if q.denominator == 1:
+                    k = int(q) % 4
+                    return [(c, s_), (-s_, c), (-c, -s_), (s_, -c)][k]
+        raise cx.Unsupported('rotation() called with an angle that is not azimuth/elevation plus a multiple of 90 degrees')
+
+    def rotation(it, args, kw, node):
+        (ca, sa), (ce, se) = cs(args[0]), cs(args[1])
+        return cx.Vec([ca * ce, sa * ce, se])
+
+    def sqrt(it, f, args, kw, node):
+        it.ctx.event('sqrt', arg=args[0])
+        return H
+
+    def stack(it, f, args, kw, node):
+        return Mat(args[0])
+
+    def mk(ctx):
+        ctx.opts.setdefault('prelude', {}).update({'np.sqrt': sqrt, 'np.stack': stack})
+        return [cx.Vec(list(X0) + [AZ, EL]), AREA], {}, {}
+    res = cx.run_function('electrodes.point_to_square_loop', mk, pc0=[AREA > 0], summaries={'electrodes.rotation': rotation}, opts={})
+    ax = [CA * CA + SA * SA == 1, CE * CE + SE * SE == 1, H * H == AREA / 2, H >= 0, AREA > 0]
+    clause(col, 'returns_five_points', res, lambda r: r.outcome == 'return' and isinstance(r.value, Mat) and len(r.value.rows) == 5 and
+           [str(z3.simplify(cx.R(e['arg']) - AREA / 2)) for e in r.events if e['kind'] == 'sqrt'] == ['0'])
+
+    def rel(r):
+        return [[cx.R(p[k]) - X0[k] for k in range(3)] for p in r.value.rows]
+
+    def cross(a, b):
+        return [a[1] * b[2] - a[2] * b[1], a[2] * b[0] - a[0] * b[2], a[0] * b[1] - a[1] * b[0]]
+
+    def closed(r):
+        P = rel(r)
+        return z3.And(*[P[4][k] == P[0][k] for k in range(3)] + [P[2][k] == -P[0][k] for k in range(3)] + [P[3][k] == -P[1][k] for k in range(3)])
+    clause(col, 'loop_is_closed_and_centred_on_the_dipole', res, closed, ax)
+
+    def square(r):
+        P = rel(r)
+        a = [P[1][k] - P[0][k] for k in range(3)]
+        b = [P[2][k] - P[1][k] for k in range(3)]
+        return z3.And(sum(x * x for x in a) == AREA, sum(x * x for x in b) == AREA, sum(x * y for x, y in zip(a, b)) == 0)
+    clause(col, 'sides_have_length_sqrt_area_and_are_perpendicular', res, square, ax)
+
+    def normal(r):
+        P = rel(r)
+        a = [P[1][k] - P[0][k] for k in range(3)]
+        b = [P[2][k] - P[1][k] for k in range(3)]
+        n = cross(a, b)
+        d = [CA * CE, SA * CE, SE]
+        return z3.And(*[n[k] == AREA * d[k] for k in range(3)])
+    clause(col, 'right_handed_normal_is_area_times_the_dipole_direction', res, normal, ax, sample=True)
+    canary(col, 'canary/normal_opposite_to_the_dipole', res,
+           lambda r: z3.And(*[x == -AREA * y for x, y in zip(cross([rel(r)[1][k] - rel(r)[0][k] for k in range(3)], [rel(r)[2][k] - rel(r)[1][k] for k in range(3)]),
+                                                            [CA * CE, SA * CE, SE])]), ax)
+    return col.pack()
+
+
 def tasks(tier):
     return [('contracts.c0910', 'task_point_source', dict(prop='C10')), ('contracts.c0910', 'task_rotation', dict(prop='C10')),
             ('contracts.c0910', 'task_dipole_cell', {}), ('contracts.c10', 'task_get_source_field', {}), ('contracts.c10', 'task_wire_branch', {}),
-            ('contracts.c10', 'task_concrete', {})]
+            ('contracts.c10', 'task_square_loop', {}), ('contracts.c10', 'task_concrete', {})]
 
 
 LEVEL = ('Proof over the real source: point-source weights sum to one in every branch; the per-cell contribution of a dipole segment distributes exactly the '
